@@ -5,7 +5,8 @@ from __future__ import annotations
 
 import pymbolic.primitives as p
 from pymbolic.mapper import (
-    CachedIdentityMapper, CachedMapper, CombineMapper, IdentityMapper, WalkMapper)
+    CachedIdentityMapper, CachedMapper, CachedWalkMapper, CombineMapper, IdentityMapper,
+    WalkMapper)
 from pymbolic.primitives import Expression, expr_dataclass
 
 
@@ -169,7 +170,23 @@ class OptCachedCounter(CachedIdentityMapper):
         return (type(expr), expr)
 
 
+class OptCachedWalker(CachedWalkMapper):
+    """cached, argument-free, every handler returns None (a memoized None is still a hit);
+    counts visits"""
+
+    def __init__(self):
+        super().__init__()
+        self.entered = 0
+
+    def visit(self, expr):
+        self.entered += 1
+        return True
+
+    def get_cache_key(self, expr):
+        return (type(expr), expr)
+
+
 OPT_SUBJECTS = {c.__name__: c for c in (OptPlainRenamer, OptCachedRenamer, OptArgRenamer,
-                                        OptArgPlain, OptCachedCounter)}
+                                        OptArgPlain, OptCachedCounter, OptCachedWalker)}
 
 # }}}
